@@ -71,6 +71,13 @@ func (t *Task) call(fn *ssa.Function, args []Value, env []Value) Value {
 	if h := lookupIntrinsic(fn); h != nil {
 		return h(t, fn, args)
 	}
+	return t.callBody(fn, args, env)
+}
+
+// callBody interprets fn's own body (used directly by intrinsics that only
+// model some argument shapes and fall back to the real code for the others).
+func (t *Task) callBody(fn *ssa.Function, args []Value, env []Value) Value {
+	p := t.p
 	if fn.Synthetic == "package initializer" && t.initDepth > 0 && len(t.frames) > 0 && t.frames[len(t.frames)-1].fn.Synthetic == "package initializer" {
 		// inits of imported packages run lazily, on first access to one of their globals
 		return nil
